@@ -1,66 +1,83 @@
-import CollectionsC.Proofs.ArraySized7
+import CollectionsC.Proofs.ArraySized8
 /-! # C14 (sized array part) — only the configured allocators
 
-Statements only.  In the model every `mem_alloc`/`mem_calloc`/`mem_free` call site of
-`cc_array_sized.c` is a `Mem.alloc`/`Mem.free` on the configured ledger; `Mem.libc` counts events
-that went through the C library allocator instead.  (The harness checks the same on the real
-library with the `--wrap=malloc` ledger: column `libc=a0 f0`.) -/
+Statements only.  The model state carries the allocator triple the C struct carries (`triple`:
+`.conf` for `cc_array_sized_new_conf` with the caller's functions, `.libc` for `cc_array_sized_new`,
+whose `conf_init` installs `malloc/calloc/free`).  Every allocation and release of the model goes
+through `Mem.allocT a.triple` / `Mem.freeT a.triple`; builders of derived arrays copy the triple
+exactly where the C code copies the three function pointers.  `Other t m m'` says that nothing
+happened on the allocator that is *not* `t`.  A model function that called the wrong allocator
+(e.g. `.libc` in a builder, the shape of the repaired defects D10/L4/S1/Q3) would falsify
+`conf_uses_only_conf`.  The harness checks the same on the real library: column `libc=a0 f0 llive=0`
+for `new_conf` sessions, `a0 f0 r0 live=0` for `new_default` sessions. -/
 namespace CC.Properties.C14Sized
 open CC CC.Gen CC.ArraySized
 
-/-- **libc_invariant**, per call of the core API -/
-theorem libc_invariant (a : ArraySized) (op : Spec.SSeq.Op Elem) (m : Mem) (h : a.Inv) (hw : OpWF a.dataLen op) :
-    (a.step op m).2.2.libc = m.libc := step_libc a op m h hw
+/-- **conf_uses_only_conf**: an array on the configured triple leaves every C-library counter
+(`libc`, `liveLibc`, `lalloc`, `lfree`) untouched — per call of the core API -/
+theorem conf_uses_only_conf (a : ArraySized) (op : Spec.SSeq.Op Elem) (m : Mem) (h : a.Inv) (hw : OpWF a.dataLen op)
+    (ht : a.triple = .conf) :
+    (a.step op m).2.2.libc = m.libc ∧ (a.step op m).2.2.liveLibc = m.liveLibc ∧
+    (a.step op m).2.2.lalloc = m.lalloc ∧ (a.step op m).2.2.lfree = m.lfree := by
+  have := step_other a op m h hw
+  rw [ht] at this
+  exact this
 
-/-- **libc_invariant** for histories -/
-theorem history_libc_invariant (a : ArraySized) (ops : List (Spec.SSeq.Op Elem)) (m : Mem) (h : a.Inv)
-    (hw : ∀ op ∈ ops, OpWF a.dataLen op) : (a.run ops m).2.2.libc = m.libc :=
-  (run_refines ops a m h hw).2.2.2.2.2.2.2
+/-- **default_uses_only_libc**: an array on the C library allocator leaves the configured ledger
+(`live`, `nalloc`, `nfree`, `nrefused`) and the refusal schedule untouched, and no call can be
+refused -/
+theorem default_uses_only_libc (a : ArraySized) (op : Spec.SSeq.Op Elem) (m : Mem) (h : a.Inv)
+    (hw : OpWF a.dataLen op) (ht : a.triple = .libc) :
+    ((a.step op m).2.2.live = m.live ∧ (a.step op m).2.2.nalloc = m.nalloc ∧ (a.step op m).2.2.nfree = m.nfree ∧
+      (a.step op m).2.2.nrefused = m.nrefused ∧ (a.step op m).2.2.sched = m.sched) ∧
+    (a.step op m).1.st ≠ some .errAlloc := by
+  have := step_other a op m h hw
+  rw [ht] at this
+  exact ⟨this, libc_never_refused a op m h hw ht⟩
 
-/-- **libc_invariant** for the constructor, the destructor and the derived-array builders: header and
-buffer of a derived array come from the source's triple -/
-theorem builders_libc_invariant (a : ArraySized) (b e : Nat) (p : List Nat → Bool) (m : Mem) (h : a.Inv) :
-    (a.copy m).2.2.libc = m.libc ∧
-    (b ≤ e → e < a.size → (a.subarray b e m).2.2.libc = m.libc) ∧
-    (0 < a.size → (a.filter p m).2.2.2.libc = m.libc) ∧
-    (2 ≤ m.live → (a.destroy m).libc = m.libc) := by
-  refine ⟨?_, ?_, ?_, fun hl => (destroy_ledger a m hl).2.2⟩
-  · rcases copy_spec a m h with ⟨_, _, _, _, _, _, _, _, _, _, h10⟩ | ⟨_, _, h3⟩
-    · exact h10
-    · exact h3.2.2
-  · intro hb he
-    rcases subarray_spec a b e m h hb he with ⟨_, _, _, _, _, _, _, _, _, _, h10⟩ | ⟨_, _, h3⟩
-    · exact h10
-    · exact h3.2.2
-  · intro h0
-    rcases filter_spec a p m h h0 with ⟨_, _, _, _, _, _, _, _, _, h9⟩ | ⟨_, _, h3⟩
-    · exact h9
-    · exact h3.2.2
+/-- both, for histories: nothing ever happens on the other allocator, and the triple never changes -/
+theorem history_uses_only_own_triple (a : ArraySized) (ops : List (Spec.SSeq.Op Elem)) (m : Mem) (h : a.Inv)
+    (hw : ∀ op ∈ ops, OpWF a.dataLen op) :
+    Other a.triple m (a.run ops m).2.2 ∧ (a.run ops m).2.1.triple = a.triple :=
+  ⟨(run_refines ops a m h hw).2.2.2.2.2.2.2, congrArg Prod.snd (run_refines ops a m h hw).2.2.2.1⟩
 
-theorem new_libc_invariant (dl cap : Nat) (grow : Nat → Nat) (exGe : Nat → Bool) (m : Mem) :
-    (ArraySized.new dl cap grow exGe m).2.2.libc = m.libc := by
-  unfold ArraySized.new
-  split
-  · rfl
-  · split
-    · rfl
-    · dsimp only
-      cases h1 : m.alloc.1
-      · exact (Mem.alloc_fst_false m h1).2.2
-      · have e1 := Mem.alloc_fst_true m h1
-        cases h2 : m.alloc.2.alloc.1
-        · have e2 := Mem.alloc_fst_false m.alloc.2 h2
-          have f := free_of_pos m.alloc.2.alloc.2 (by omega)
-          simp only [Bool.not_true, Bool.false_eq_true, if_false, Bool.not_false, if_true]
-          rw [f.2.2, e2.2.2, e1.2.2]
-        · have e2 := Mem.alloc_fst_true m.alloc.2 h2
-          simp only [Bool.not_true, Bool.false_eq_true, if_false]
-          rw [e2.2.2, e1.2.2]
+/-- **derived_inherits_triple**: `subarray`, `copy`, `filter` allocate header and buffer through the
+source's triple, and the result carries that triple (so everything it later allocates and its own
+`destroy` use it too) — for every argument, every outcome -/
+theorem derived_inherits_triple (a : ArraySized) (b e : Nat) (p : List Nat → Bool) (m : Mem) (h : a.Inv) :
+    (Other a.triple m (a.copy m).2.2 ∧ ∀ s, (a.copy m).2.1 = some s → s.triple = a.triple) ∧
+    (Other a.triple m (a.subarray b e m).2.2 ∧ ∀ s, (a.subarray b e m).2.1 = some s → s.triple = a.triple) ∧
+    (Other a.triple m (a.filter p m).2.2.2 ∧ ∀ s, (a.filter p m).2.2.1 = some s → s.triple = a.triple) := by
+  refine ⟨?_, ?_, ?_⟩
+  · rcases copy_spec a m h with ⟨s, h1, _, _, _, h5, _, _, _, _, h10⟩ | ⟨_, h2, h3⟩
+    · exact ⟨h10, fun s' hs => by rw [h1] at hs; cases hs; exact congrArg Prod.snd h5⟩
+    · exact ⟨h3.2.2, fun s' hs => by rw [h2] at hs; cases hs⟩
+  · by_cases hr : b ≤ e ∧ e < a.size
+    · rcases subarray_spec a b e m h hr.1 hr.2 with ⟨s, h1, _, _, _, h5, _, _, _, _, h10⟩ | ⟨_, h2, h3⟩
+      · exact ⟨h10, fun s' hs => by rw [h1] at hs; cases hs; exact congrArg Prod.snd h5⟩
+      · exact ⟨h3.2.2, fun s' hs => by rw [h2] at hs; cases hs⟩
+    · rw [subarray_inert a b e m (by omega)]
+      exact ⟨Other.refl _ m, fun s' hs => by cases hs⟩
+  · by_cases h0 : 0 < a.size
+    · rcases filter_spec a p m h h0 with ⟨s, h1, _, _, _, h5, _, _, _, h9⟩ | ⟨_, h2, h3⟩
+      · exact ⟨h9, fun s' hs => by rw [h1] at hs; cases hs; exact congrArg Prod.snd h5⟩
+      · exact ⟨h3.2.2, fun s' hs => by rw [h2] at hs; cases hs⟩
+    · rw [filter_inert a p m (by omega)]
+      exact ⟨Other.refl _ m, fun s' hs => by cases hs⟩
 
-/-- **libc_invariant** for iterator programs (`iter_add` may grow the array) -/
-theorem iter_libc_invariant (it : Iter) (a : ArraySized) (c : Spec.SSeq.Cursor Elem)
+/-- constructor and destructor use the triple they are given / the array carries -/
+theorem new_destroy_use_own_triple (dl cap : Nat) (grow : Nat → Nat) (exGe : Nat → Bool) (m : Mem) (t : Triple)
+    (a : ArraySized) (m' : Mem) (hnew : ArraySized.new dl cap grow exGe m t = (.ok, some a, m')) :
+    a.triple = t ∧ Other t m m' ∧ Other t m' (a.destroy m') := by
+  obtain ⟨_, _, _, _, _, hl, _, _, _, hc, ht⟩ := new_ok dl cap grow exGe m m' t a hnew
+  have := destroy_ledger a m' (by rw [ht]; omega)
+  rw [ht] at this
+  exact ⟨ht, hc, this.2.2⟩
+
+/-- iterator programs (`iter_add` may grow the array) use the array's triple only -/
+theorem iter_uses_only_own_triple (it : Iter) (a : ArraySized) (c : Spec.SSeq.Cursor Elem)
     (cmds : List (Spec.SSeq.IterCmd Elem)) (m : Mem) (h : a.Inv) (hw : ∀ cmd ∈ cmds, IterCmdWF a.dataLen cmd)
-    (hrel : IterRel it a c) : (iterRun it a cmds m).2.2.2.libc = m.libc :=
+    (hrel : IterRel it a c) : Other a.triple m (iterRun it a cmds m).2.2.2 :=
   (iterRun_refines cmds it a c m h hw hrel).2.2.2.2.2
 
 /-- **allocator_independent**, one call: two ledgers with the same schedule of answers give the same
@@ -77,5 +94,17 @@ theorem history_allocator_independent (a : ArraySized) (ops : List (Spec.SSeq.Op
     (hw : ∀ op ∈ ops, OpWF a.dataLen op) (hs : m1.sched = m2.sched) :
     (a.run ops m1).1 = (a.run ops m2).1 ∧ (a.run ops m1).2.1 = (a.run ops m2).2.1 :=
   ⟨(run_indep ops a m1 m2 h hw hs).1, (run_indep ops a m1 m2 h hw hs).2.1⟩
+
+/-! Non-vacuity (and falsifiability): the same growing history on a `.conf` array moves only the
+configured counters, on a `.libc` array only the C-library counters, even under a refusing schedule. -/
+example :
+    let a : ArraySized := { dataLen := 1, size := 1, capacity := 1, grow := fun c => 2 * c, buf := [7] }
+    let m : Mem := { live := 2 }
+    a.Inv ∧ (a.run [.add [1], .add [2]] m).2.2.lalloc = 0 ∧ (a.run [.add [1], .add [2]] m).2.2.nalloc = 2 := by decide
+example :
+    let a : ArraySized := { dataLen := 1, size := 1, capacity := 1, grow := fun c => 2 * c, buf := [7], triple := .libc }
+    let m : Mem := { sched := [true, true], liveLibc := 2 }
+    a.Inv ∧ (a.run [.add [1], .add [2]] m).2.2.lalloc = 2 ∧ (a.run [.add [1], .add [2]] m).2.2.nalloc = 0 ∧
+    (a.run [.add [1], .add [2]] m).2.2.sched = [true, true] ∧ (a.run [.add [1], .add [2]] m).2.1.size = 3 := by decide
 
 end CC.Properties.C14Sized
